@@ -24,6 +24,18 @@ permuted, single- and multi-section.  The auto-populated header shows the names:
 of names, and laygen.classify recognises exactly those rows as headers.  Lean: Props/C02encnames.lean (the encoder
 model resolves the removed names to POSITIONS once and never looks at a name again; the rendered rows are invariant
 under every injective renaming of the columns).
+
+Documents nnames.. of a run are the *shared component* class (gen_multi_shared; docgen "share"): multi-section documents
+in which two or more sections — adjacent or not — are given the VERY SAME RTFBody object (with a full-length
+col_rel_width the document keeps the caller's object; with none / a one-element one it stores per-section copies) and
+the very same RTFColumnHeader objects, while every section has its own frame: page_by / subline_by columns anywhere
+among the columns, independently per section — frames of equal shape with the key column at another position, equal
+shape and position, other row counts, other column counts — data columns under the same names in another order or
+under names of their own; every strategy that removes columns and the ones that do not; per-column attributes.  The
+crosscorr step adds documents of the same class for the encoder model (encodecorr2.gen_multi_shared2: these sentinel
+documents, and decorated / group_by / typed documents of gen_multi2 in which a section is repeated under the same body
+object with its frame's columns permuted).  Lean: Props/C02encshare.lean (a section's removed positions are looked up
+in its own column list; no other section enters).
 """
 from __future__ import annotations
 
@@ -44,7 +56,10 @@ MANIFEST = dict(
          "token-bearing (^ _ >= <=) cells wherever the cell's own flag is off, and documents whose columns carry edge "
          "NAMES (polars selector syntax, regexes / prefixes / case variants of other names, empty, blank, non-ASCII, "
          "cell values, attribute names, numeric-looking, very long). Props/C02encnames: the encoder model removes "
-         "columns by position; the rows it renders are the same under every injective renaming of the columns.",
+         "columns by position; the rows it renders are the same under every injective renaming of the columns. "
+         "Props/C02encshare: in a list document every section's removed positions are those of the body's names in "
+         "the section's OWN column list, wherever it stands and whatever the other sections are — tied by documents "
+         "whose sections are given the very same RTFBody / header objects with the key columns at per-section positions.",
     note="Cell text equality is checked on the observation (reader decodes the bytes); that the escaper's bytes "
          "decode to the text is C10's theorem. str() of values, polars slicing and pydantic are parameters. "
          "Unconverted cells hold printable ASCII without \\ { } (text_convert off writes the text as raw RTF); "
@@ -52,7 +67,9 @@ MANIFEST = dict(
          "Column names are arbitrary distinct strings (a polars frame admits no equal names); names with \\ { } are "
          "drawn only where no header shows the names (a header text is RTF-active like any text). A header row is "
          "recognised as the row showing the displayed columns' names up to text conversion (^ _ >= <=), which is not "
-         "C02's subject.",
+         "C02's subject. Shared component objects: the model is a function of values (two sections given one object "
+         "are two sections with equal bodies); the sharing itself exists on the implementation side only and is tied "
+         "by observation (oracle on the real output; byte correspondence with the encoder model in the crosscorr step).",
     technique="Lean 4 proof (partition of rows by monotone page numbers) + observation-level correspondence",
     design="7/C02",
 )
@@ -71,6 +88,13 @@ RULE = ("seeded tagged tables (0..45 rows, 1..4 data columns incl. padded and bl
         "the names — RTF-active characters), one column up to all columns renamed, columns in generator order or "
         "permuted, under every strategy with and without column removal, with auto-populated / explicit / no header, "
         "single-section and multi-section (the removed column anywhere; the same odd name in several sections); "
+        "plus multi-section documents (2–4 sections) whose sections are given SHARED objects — one RTFBody for two or "
+        "more sections, adjacent or not, with full-length / one-element / no col_rel_width (the document keeps the "
+        "caller's object or stores copies), one RTFColumnHeader list for several sections — over frames of their own: "
+        "page_by (1–2 levels, new_page on/off, first_row/column) / subline_by / subline_by+page_by / no key columns at "
+        "independent positions per section, frames of equal shape with the key column moved, equal shape and position, "
+        "other row or column counts, data columns under the same names permuted or under own names, per-column "
+        "text_justification / text_format; the same class against the encoder model (cross-encoder step); "
         "non-trivial = ≥ 2 pages; distinct by (strategy, nrow, rows per page)")
 
 SAFE_OFF = "".join(c for c in string.printable[:94] if c not in "\\{}")  # printable ASCII without \ { }
@@ -383,8 +407,183 @@ def gen_multi_names(rng):
     return spec, info
 
 
+SHARED_MODES = ["page_by", "page_by", "page_by", "page_by2", "page_by_np_first", "page_by_np", "subline", "subline",
+                "subline_page_by", "none"]
+
+
+def _shared_body(rng, mode, ncols, widths):
+    """the kwargs of one RTFBody that several sections may be given (the very same object, docgen "share")"""
+    body = {}
+    if mode in ("page_by", "page_by_np_first", "page_by_np", "subline_page_by"):
+        body["page_by"] = ["PB0"]
+    elif mode == "page_by2":
+        body["page_by"] = ["PB0", "PB1"]
+    if mode in ("subline", "subline_page_by"):
+        body["subline_by"] = ["SL0"]
+    if mode in ("page_by_np_first", "page_by_np"):
+        body["new_page"] = True
+    if mode == "page_by_np_first":
+        body["pageby_row"] = "first_row"
+    if widths == "explicit":
+        # one entry per frame column: RTFDocument keeps the caller's object (nothing to resolve)
+        body["col_rel_width"] = [rng.choice([1, 1, 2, 1.5, 3]) for _ in range(ncols)]
+    elif widths == "one":
+        body["col_rel_width"] = [1]          # resolved per section into a copy, unless the frame has one column
+    if rng.random() < 0.35:
+        # attributes given per frame column bind by POSITION, whatever column sits there in a section's frame
+        body["text_justification"] = [rng.choice(["l", "c", "r"]) for _ in range(ncols)]
+    if rng.random() < 0.25:
+        body["text_format"] = [rng.choice(["", "b", "i"]) for _ in range(ncols)]
+    if rng.random() < 0.3:
+        body["pageby_header"] = rng.random() < 0.5
+    return body
+
+
+def _keys_for(rng, n, keycols):
+    """contiguous hierarchical group values for the key columns (outer first) → {column: values}"""
+    out = {}
+    outer = None
+    for kc in keycols:
+        alpha = [("SB" if kc.startswith("SL") else f"G{kc[2:]}") + x for x in "abcd"]
+        if outer is None:
+            vals = docgen.run_keys(rng, n, alpha, 1, 4)
+        else:
+            vals, i = [], 0
+            while i < n:
+                j = i
+                while j < n and outer[j] == outer[i]:
+                    j += 1
+                vals += docgen.run_keys(rng, j - i, alpha, 1, 3)
+                i = j
+        out[kc] = vals
+        outer = vals if outer is None else [a + "|" + b for a, b in zip(outer, vals)]
+    return out
+
+
+def gen_multi_shared(rng):
+    """multi-section document whose sections are given SHARED component objects: one RTFBody object for two or more
+    sections (adjacent or not; with a full-length col_rel_width the document keeps the caller's object, with none / a
+    one-element one it stores per-section copies), one list of RTFColumnHeader objects for several sections — while
+    every section has its OWN frame: the page_by / subline_by columns sit anywhere among the frame's columns,
+    independently per section (frames of equal shape with the key column at another position, equal shape and equal
+    order, different row counts, different column counts), the data columns carry the same names in another order or
+    names of their own.  Every strategy that removes columns (page_by shown as spanning rows, one or two levels,
+    new_page + first_row, subline_by, subline_by + page_by) and the ones that do not (new_page + column, none)."""
+    nsec = rng.choice([2, 2, 3, 3, 4])
+    # body groups: sections → group; at least one group of two or more sections
+    ngroups = rng.randint(1, max(1, nsec - 1))
+    gof = [rng.randrange(ngroups) for _ in range(nsec)]
+    if max(gof.count(g) for g in set(gof)) < 2:
+        gof[rng.randrange(1, nsec)] = gof[0]
+    groups = {}
+    for g in sorted(set(gof)):
+        mode = rng.choice(SHARED_MODES)
+        keycols = {"page_by2": ["PB0", "PB1"], "subline": ["SL0"], "subline_page_by": ["SL0", "PB0"],
+                   "none": []}.get(mode, ["PB0"])
+        nd = rng.randint(1, 3)
+        widths = rng.choice(["explicit", "explicit", "explicit", "none", "one"])
+        groups[g] = dict(mode=mode, keycols=keycols, nd=nd, widths=widths, n=rng.randint(1, 8),
+                         body=_shared_body(rng, mode, nd + len(keycols), widths),
+                         common_names=rng.random() < 0.5, first=None, order0=None,
+                         header=rng.choice(["explicit", "explicit", "own-widths", "none"]),
+                         share_header=rng.random() < 0.6)
+    auto = rng.random() < 0.25
+    frames, bodies, headers, expect, name_rows = [], [], [], [], []
+    share_b, share_h = [], []
+    labels = {"shared-doc"}
+    base = 0
+    shapes = {}
+    for s in range(nsec):
+        G = groups[gof[s]]
+        mode, keycols, nd = G["mode"], G["keycols"], G["nd"]
+        n = G["n"] if rng.random() < 0.65 else rng.randint(1, 10)
+        if G["widths"] == "none" and not any(isinstance(v, list) and k.startswith("text_") for k, v in G["body"].items()) \
+                and rng.random() < 0.3:
+            nd = rng.randint(1, 3)         # nothing of the body is given per column: the column count may differ too
+        removed = [] if mode in ("page_by_np", "none") else list(keycols)
+        # the frame's columns: data columns (the group's names in this section's order, or names of its own), the key
+        # columns anywhere among them — or, one time in six, exactly the order of the group's first section
+        names = [f"COL{j}" for j in range(nd)] if G["common_names"] else [f"S{s}COL{j}" for j in range(nd)]
+        if G["common_names"]:
+            rng.shuffle(names)
+        cols = list(names)
+        for kc in rng.sample(keycols, len(keycols)):
+            cols.insert(rng.randint(0, len(cols)), kc)
+        if G["order0"] is not None and len(G["order0"]) == len(cols) and rng.random() < 0.17:
+            cols = [c if c in keycols else None for c in G["order0"]]
+            it = iter(names)
+            cols = [c if c is not None else next(it) for c in cols]
+        if G["order0"] is None:
+            G["order0"] = list(cols)
+        keyvals = _keys_for(rng, n, keycols)
+        data_idx = [c for c in range(len(cols)) if cols[c] not in keycols]
+        rows = []
+        for i in range(n):
+            row = []
+            for c, name in enumerate(cols):
+                if name in keycols:
+                    row.append(keyvals[name][i])
+                    continue
+                j = data_idx.index(c)
+                row.append(None if (j > 0 and rng.random() < 0.1) else f"r{base + i}c{j}")
+            rows.append(row)
+        frames.append(dict(cols=cols, rows=rows))
+        bodies.append(G["body"])
+        shown = [c for c in range(len(cols)) if cols[c] not in removed]
+        expect += [[docgen.display(r[c]) for c in shown] for r in rows]
+        name_rows.append([cols[c] for c in shown])
+        # shared objects
+        if G["first"] is None:
+            G["first"] = s
+        share_b.append(G["first"])
+        g = gof[s]
+        if G["header"] == "none" or auto:
+            headers.append([None])
+            share_h.append(s)
+        else:
+            h = dict(text=[f"HD{g}c{j}" for j in range(len(shown))])
+            if G["header"] == "own-widths":
+                h["col_rel_width"] = [1] * len(shown)     # a header with its own widths is kept by reference too
+            same = [t for t in range(s) if gof[t] == g and share_h[t] == t and headers[t] == [h]]
+            if same and G["share_header"]:
+                headers.append(headers[same[0]])      # (the same spec object too: later edits reach every user)
+                share_h.append(same[0])
+            else:
+                headers.append([h])
+                share_h.append(s)
+        # what the sections of one body look like to each other
+        key_pos = tuple(cols.index(kc) for kc in keycols)
+        for (n0, nc0, kp0, s0) in shapes.get(g, []):
+            if not removed:
+                rel = "no-removal"
+            elif (n0, nc0) == (n, len(cols)):
+                rel = "same-shape-key-moved" if kp0 != key_pos else "same-shape-same-key-position"
+            else:
+                rel = "different-shape-key-moved" if kp0 != key_pos else "different-shape"
+            labels.add("shared-body-frames:" + rel)
+            if s - s0 > 1 and any(gof[t] != g for t in range(s0 + 1, s)):
+                labels.add("shared-body:non-adjacent-sections")
+        shapes.setdefault(g, []).append((n, len(cols), key_pos, s))
+        base += n
+    for g, G in groups.items():
+        users = gof.count(g)
+        if users >= 2:
+            kept = G["widths"] == "explicit" or (G["widths"] == "one" and G["nd"] + len(G["keycols"]) == 1)
+            labels.update({f"shared-body-mode:{G['mode']}", f"shared-body-widths:{G['widths']}",
+                           "shared-body:" + ("document-keeps-the-object" if kept else "document-stores-copies"),
+                           "shared-body-names:" + ("same-names" if G["common_names"] else "own-names")})
+    spec = dict(kind="multi", df=frames, body=bodies, headers="default" if auto else headers,
+                share=dict(body=share_b, headers=None if auto else share_h),
+                page=dict(nrow=rng.randint(6, 30)), footnote=dict(text="FTNOTE") if rng.random() < 0.4 else None)
+    labels.update(docgen.share_labels(spec))
+    info = dict(strategy="multi", header_mode="multi-auto" if auto else "multi", n=base, model=False, page_by=None,
+                subline_by=None, expect=expect, name_headers=name_rows if auto else [], labels=sorted(labels))
+    return spec, info
+
+
 class C02(layfamily.Family):
     prop, tag = "C02", "c02"
+    cross_shared = 0.3       # crosscorr: + 30 % documents of the shared-component class (encodecorr2.gen_multi_shared2)
 
     def nbase(self, tier):
         return 320 if tier == "quick" else 5000
@@ -393,11 +592,17 @@ class C02(layfamily.Family):
         # the documents after the first nbase are the per-column / per-cell text_convert class
         return self.nbase(tier) + (160 if tier == "quick" else 2000)
 
-    def ndocs(self, tier):
+    def nnames(self, tier):
         # … and the documents after those are the edge-column-name class
         return self.nmixed(tier) + (240 if tier == "quick" else 3000)
 
+    def ndocs(self, tier):
+        # … and the documents after those are the shared-component class (one RTFBody / header list for several sections)
+        return self.nnames(tier) + (160 if tier == "quick" else 2000)
+
     def gen(self, rng, k, tier):
+        if k >= self.nnames(tier):
+            return gen_multi_shared(rng)
         if k >= self.nmixed(tier):
             return gen_multi_names(rng) if k % 6 == 5 else gen_names(rng, k)
         if k >= self.nbase(tier):
@@ -446,6 +651,26 @@ class C02(layfamily.Family):
             cand = laygen.unname(case, name)
             if cand is not None:
                 yield cand
+        spec = case["spec"]
+        if spec.get("kind") == "multi" and spec.get("share") and len(spec["df"]) > 2:
+            # a document of the shared-component class: the same document without its last section
+            import copy
+
+            c = copy.deepcopy(case)
+            sp, inf = c["spec"], c["info"]
+            m = len(sp["df"][-1]["rows"])
+            sp["df"].pop()
+            sp["body"].pop()
+            if isinstance(sp["headers"], list):
+                sp["headers"].pop()
+            for sh in sp["share"].values():
+                if sh is not None:
+                    sh.pop()
+            inf["n"] -= m
+            inf["expect"] = inf["expect"][:inf["n"]]
+            if inf.get("name_headers"):
+                inf["name_headers"] = inf["name_headers"][:len(sp["df"])]
+            yield c
 
     def cross_prepare(self, spec, info):
         """documents of the whole-encoder class (harness/crosscorr.py): the display texts of the displayed columns"""
@@ -602,6 +827,9 @@ def run(res, build):
                     "the encoder model resolves the page_by / subline_by names to column POSITIONS once (keepMask / "
                     "dropCols work with indices only), so the rendered rows are the same under every injective "
                     "renaming of the columns — a name such as '*' or '^x$' is a name like any other. "
+                    "C02encshare_removed_own / _removed_local / _same_body / _rows: the positions removed from a section "
+                    "of a list document are those of its body's page_by / subline_by names in its OWN column list — the "
+                    "same wherever the section stands, also when another section has the same body and other positions. "
                     "Multi-section documents are covered by the "
                     "observation oracle only (the layout model is single-section; each section runs the same pipeline).")
 
